@@ -56,7 +56,7 @@ var c08Tags = []string{"valid", "a", "b"}
 func c08Build(rng *rand.Rand, nHot, nCold, rounds, hotBlock int) *c08Hist {
 	h := &c08Hist{}
 	seq := 0
-	plan := tagPlan{TagNames: c08Tags, Style: gen.MsgMixed, MaxRules: 3, Unknown: true, Groups: true, seq: &seq}
+	plan := tagPlan{TagNames: c08Tags, Style: gen.MsgMixed, MaxRules: 3, Unknown: true, Groups: true, Decoys: true, seq: &seq}
 	// no Go maps inside the values: their iteration order would make the error text differ between
 	// two executions for reasons that have nothing to do with the cache
 	to := gen.TypeOpts{MaxFields: 5, MaxDepth: 2, Leaf: vLeafTypes, Unexported: true, Ptr: true, PtrPtr: true, Slices: true, Arrays: true, Maps: false, Tag: plan.ruleTag, Time: true}
@@ -503,13 +503,23 @@ func parentC08(p *core.ParentCtx) *core.Result {
 			if agrees(call.Tag) {
 				continue
 			}
-			for _, other := range c08Tags {
+			res.Count("calls_disagreeing_with_reference_for_requested_tag")
+			matched := false
+			for _, other := range []string{"valid", "a", "b", "xvalid", "xa", "xb"} {
 				if other != call.Tag && agrees(other) {
+					matched = true
 					res.Violate("C08|judged-by-other-tag|all-configurations", fmt.Sprintf("call #%d %s returned %q even with a cache that never remembers anything: that is what the rules under tag %q demand, not those under the requested tag %q (%s); type %s",
 						call.ID, call.describe(), trunc(base[pos], 400), other, call.Tag, trunc(why, 300), trunc(h.typeOf(call).String(), 500)),
 						map[string]interface{}{"seed": seed, "call": call, "history_free": base[pos], "requested_tag": call.Tag, "matches_tag": other, "type": h.typeOf(call).String(), "value": describeValue(reflect.ValueOf(h.input(call)))})
 					break
 				}
+			}
+			if !matched {
+				// decided by the reference, and not what the requested tag's rules demand (nor what any
+				// single other tag's rules demand): e.g. some fields judged by another key's rules
+				res.Violate("C08|not-the-requested-tags-rules|all-configurations", fmt.Sprintf("call #%d %s returned %q even with a cache that never remembers anything; the rules under the requested tag %q demand otherwise (%s); type %s",
+					call.ID, call.describe(), trunc(base[pos], 400), call.Tag, trunc(why, 300), trunc(h.typeOf(call).String(), 500)),
+					map[string]interface{}{"seed": seed, "call": call, "history_free": base[pos], "requested_tag": call.Tag, "type": h.typeOf(call).String(), "value": describeValue(reflect.ValueOf(h.input(call)))})
 			}
 		}
 		for _, cfg := range c08Configs {
